@@ -894,6 +894,19 @@ class Registry:
                     # the body, and module-level helpers it hands the
                     # context to
                     todo, seen = [(fi, None)], set()
+                    # register() is evaluated abstractly (tables, loops,
+                    # aliases, helpers and flags all come out the same);
+                    # the pattern reader is kept for what the evaluator does
+                    # not model (re-registration of existing overloads ...)
+                    mark = len(self.overloads)
+                    if self._scan_register_abs(fi, ctx):
+                        continue
+                    del self.overloads[mark:]
+                    self._scan_by_pattern(mod, fi, ctx, todo, seen)
+                    continue
+        self._build_finalizer()
+
+    def _scan_by_pattern(self, mod, fi, ctx, todo, seen):
                     while todo:
                         f, cond = todo.pop()
                         if f.key in seen:
@@ -914,6 +927,9 @@ class Registry:
                                     todo.append((h, ' and '.join(
                                         x for x in (cond, hc) if x) or
                                         None))
+
+    def _build_finalizer(self):
+        repo = self.repo
         # the finaliser pair registered by yaql._setup_context
         init = repo.module('yaql')
         sc = init.functions.get('_setup_context')
@@ -932,6 +948,83 @@ class Registry:
                         if h is not None and h.parent_func is None and \
                                 h.name not in ('create_context',):
                             todo.append(h)
+
+    def _scan_register_abs(self, fi, ctx):
+        """register(context, flag...) evaluated abstractly for every
+        valuation of its boolean flags, with context.register_function as an
+        uninterpreted call: the sequence of (payload, name, kind flags)
+        registered, whatever the loops, tables, aliases and helpers it is
+        spelled with.  False if the evaluator gives up."""
+        from sa import absint
+        import itertools
+        mod = fi.module
+        ps = fi.params()
+        if not ps:
+            return False
+        flags = ps[1:]
+        if len(flags) > 4:
+            return False
+        by_node = {f.node: f for f in self.repo.all_functions()}
+        seen_in = {}      # (func key, reg_name, function, method, excl)
+        order = []
+        vals_all = list(itertools.product((False, True), repeat=len(flags)))
+        for vals in vals_all:
+            regs = []
+
+            def oracle(callee, args, kwargs):
+                if callee == 'register-function':
+                    regs.append((args, kwargs))
+                    return (None,)
+                return None
+            cobj = absint.Obj('context', register_function=absint.Sym(
+                'register-function'))
+            it = absint.Interp(self.repo, mod, oracle)
+            amap = {ps[0]: cobj}
+            amap.update(dict(zip(flags, vals)))
+            try:
+                it.run(fi.node, amap)
+            except (absint.Unsupported, absint._Raise):
+                return False
+            for args, kwargs in regs:
+                if not args:
+                    return False
+                tgt = args[0]
+                if isinstance(tgt, absint.Closure):
+                    tfi = by_node.get(tgt.node)
+                elif isinstance(tgt, model.FuncInfo):
+                    tfi = tgt
+                else:
+                    tfi = None
+                if tfi is None:
+                    return False
+                name = kwargs.get('name', args[1] if len(args) > 1
+                                  else None)
+                key = (tfi.key, name, kwargs.get('function'),
+                       kwargs.get('method'),
+                       bool(kwargs.get('exclusive', False)))
+                if key not in seen_in:
+                    seen_in[key] = (tfi, set())
+                    order.append(key)
+                seen_in[key][1].add(vals)
+        for key in order:
+            tfi, where = seen_in[key]
+            cond = ''
+            if len(where) != len(vals_all):
+                parts = []
+                for i, fl in enumerate(flags):
+                    on = {v[i] for v in where}
+                    if on == {True}:
+                        parts.append(fl)
+                    elif on == {False}:
+                        parts.append('not %s' % fl)
+                cond = ' and '.join(parts) or 'sometimes'
+            ov = self.make_overload(tfi, key[1], key[2], key[3])
+            ov.exclusive = key[4]
+            ov.condition = cond
+            ov.ctx = ctx
+            ov.reg_site = '%s/(evaluated)' % fi.key
+            self.overloads.append(ov)
+        return bool(order)
 
     def _scan_register(self, fi, ctx, outer_condition=None):
         mod = fi.module
